@@ -47,10 +47,14 @@ def run(tier):
     _bc_interface(chk)
     _b_gather(chk)
     _c_service_section(chk)
+    _c_config_chain(chk)
     # a cached map is the one for the requested section and options
     from . import c20
     from .common import Relabel
     c20._b_key_params(Relabel(chk, {"C20.b": "C14.c-cache"}), [x for x in c20._sites() if x.mod.name.endswith("services.maps") and x.cls.name.startswith("_CenterManifold")])
+    # the public facade binds every argument to the service parameter it is meant for (nominal swap rule, rules/common.py)
+    from . import common as _common
+    _common.facade_bindings(chk, "C14.c-facade", ['hiten.system.maps.center', 'hiten.system.center'], floor=15)
     return chk
 
 
@@ -301,6 +305,51 @@ def backend_slots(chk, rule):
 
 
 # ------------------------------------------------------------------------------------------------ d
+def _c_config_chain(chk):
+    """The map is computed on the configured section, at the manifold's energy, with the options of the call: the interface's
+    create_problem and to_backend_inputs are interpreted with a model centre manifold (symbols for the energy, the Jacobian
+    blocks, the tables) and symbolic options; energy, section, step, iteration count, integrator settings and the Hamiltonian
+    data must arrive in the problem / the backend request under their own names, and the two closures the seeding uses solve
+    on the same energy level with the same Hamiltonian."""
+    IFM = "hiten.algorithms.poincare.centermanifold.interfaces"
+    imod, icls = ri.find_def(IFM, "_CenterManifoldInterface")
+    E, DT, JAC, HB, CLMO, MS, ORD, CW = (sp.Symbol(n, real=True) for n in ("ENERGY", "DT", "JAC_H", "H_BLOCKS", "CLMO", "MAX_STEPS", "ORDER", "C_OMEGA"))
+    hamsys = SymObj(None, {"jac_H": JAC, "poly_H": lambda: HB, "clmo_table": CLMO, "clmo": CLMO}, "hamsys")
+    dom = SymObj(None, {"dynamics": SymObj(None, {"hamsys": hamsys}, "dyn"), "energy": E}, "cm")
+    for section in ("q3", "p2"):
+        cfg = SymObj(None, {"section_coord": section, "integration": SymObj(None, {"method": "symplectic"}, "icfg")}, "config")
+        opts = SymObj(None, {"integration": SymObj(None, {"dt": DT, "max_steps": MS, "order": ORD, "c_omega_heuristic": CW}, "iopt"),
+                             "iteration": SymObj(None, {"n_iter": 7}, "it"), "workers": SymObj(None, {"n_workers": 3}, "w")}, "options")
+        cap, prob_kw, solved = {}, {}, []
+        ip = Interp(overrides={"CenterManifoldBackendRequest": lambda ip_, a, k: (cap.update(k), SymObj(None, dict(k), "request"))[1],
+                               "_BackendCall": lambda ip_, a, k: SymObj(None, dict(k), "call"),
+                               "_CenterManifoldMapProblem": lambda ip_, a, k: (prob_kw.update(k), SymObj(None, dict(k), "problem"))[1]})
+        iface = SymObj(ClassRef(imod, icls), {"solve_missing_coord": lambda *a, **k: solved.append(("solve", a, k)), "find_turning": lambda *a, **k: solved.append(("turn", a, k))}, "interface")
+        try:
+            prob = ip.apply(ip.getattr(iface, "create_problem"), [], {"domain_obj": dom, "config": cfg, "options": opts})
+            ip.apply(ip.getattr(iface, "to_backend_inputs"), [prob], {})
+            ip.apply(prob_kw["solve_missing_coord_fn"], ["p3", {"q2": sp.Symbol("Q2")}], {})
+            ip.apply(prob_kw["find_turning_fn"], ["q2"], {})
+        except (OutsideFragment, KeyError) as exc:
+            raise AnalysisError(f"centre-manifold map configuration chain outside fragment: {exc}")
+        chk.count("functions partially evaluated", 2)
+        want_p = {"section_coord": section, "energy": E, "dt": DT, "n_iter": 7, "n_workers": 3, "jac_H": JAC, "H_blocks": HB, "clmo_table": CLMO, "max_steps": MS,
+                  "method": "symplectic", "order": ORD, "c_omega_heuristic": CW}
+        bad = {k: prob_kw.get(k) for k, v in want_p.items() if not (prob_kw.get(k) is not None and prob_kw.get(k) == v)}
+        chk.check(not bad, "C14.c-config", f"{IFM}::_CenterManifoldInterface.create_problem[{section}]",
+                  f"the problem carries {bad} instead of {dict((k, want_p[k]) for k in bad)}: the map is not computed with the configured section / the manifold's energy / the options of the call",
+                  sample=f"{section}: problem fields = (config.section_coord, domain energy, options.integration.*, options.iteration.n_iter, hamsys data)")
+        want_r = {k: want_p[k] for k in ("dt", "jac_H", "clmo_table", "section_coord", "max_steps", "method", "order", "c_omega_heuristic")}
+        bad = {k: cap.get(k) for k, v in want_r.items() if not (cap.get(k) is not None and cap.get(k) == v)}
+        chk.check(not bad, "C14.c-config", f"{IFM}::_CenterManifoldInterface.to_backend_inputs[{section}]",
+                  f"the backend request carries {bad} instead of {dict((k, want_r[k]) for k in bad)}", sample=f"{section}: request fields copied from the problem under their own names")
+        ok = len(solved) == 2 and all(k.get("h0") == E and k.get("H_blocks") == HB and k.get("clmo_table") == CLMO for _, a, k in solved) \
+            and solved[0][1][0] == "p3" and solved[1][1][0] == "q2"
+        chk.check(ok, "C14.c-config", f"{IFM}::_CenterManifoldInterface.create_problem[{section},closures]",
+                  f"the seeding closures solve with {[(t, a, sorted(k.items(), key=str)) for t, a, k in solved]}: not on the manifold's energy level with its Hamiltonian blocks",
+                  sample="solve_missing_coord_fn / find_turning_fn: h0 = energy, H_blocks, clmo_table of this manifold")
+
+
 def _d_crossing(chk):
     n_dof = 3
     so = to_obj_array([sp.Symbol(f"o{i}", real=True) for i in range(6)])
